@@ -8,9 +8,24 @@ engine.facts_path(True)
 props = ["C%02d" % i for i in range(1, 21)]
 mods = {p: importlib.import_module("p_" + p.lower()) for p in props}
 known = {k["key"] for k in engine.load_known() if k.get("status") == "known"}
-for diff in sys.argv[1:]:
+import hashlib, argparse
+ap = argparse.ArgumentParser()
+ap.add_argument("diffs", nargs="+")
+ap.add_argument("-p", default="")
+ap.add_argument("-v", action="store_true")
+ap.add_argument("--log", action="store_true")
+ap.add_argument("--facts", action="store_true")
+args = ap.parse_args()
+if args.p:
+    props = [p for p in props if p in args.p.split(",")]
+CACHE = "/var/tmp/verif-patchfacts"
+os.makedirs(CACHE, exist_ok=True)
+nsilent = 0
+for diff in args.diffs:
     d = tempfile.mkdtemp(prefix="verif-patch-", dir="/var/tmp")
     try:
+        hk = hashlib.sha256((engine.source_hash() + open(diff).read()).encode()).hexdigest()[:20]
+        cf = os.path.join(CACHE, hk + ".json")
         shutil.copytree("/repo/src", os.path.join(d, "src"))
         for f in ("Cargo.toml", "Cargo.lock"):
             shutil.copy(os.path.join("/repo", f), os.path.join(d, f))
@@ -18,22 +33,37 @@ for diff in sys.argv[1:]:
         if r.returncode != 0:
             print("%-50s PATCH-FAILED %s" % (diff[-50:], r.stdout[:200].replace("\n", " ")))
             continue
-        out, log = engine.extract_variant(d, True)
-        if out is None:
-            print("%-50s COMPILE-ERROR %s" % (diff[-50:], log[-300:].replace("\n", " ")))
-            continue
+        if os.path.exists(cf):
+            out = cf
+        else:
+            out, log = engine.extract_variant(d, True)
+            if out is None:
+                print("%-50s COMPILE-ERROR %s" % (diff[-50:], log[-300:].replace("\n", " ")))
+                continue
+            shutil.copy(out, cf)
         F = mir.Facts(out)
+        if args.facts:
+            print(cf)
+        if args.log:
+            for x in F.inline_log:
+                if "cln_plugin" not in x[0] and "rpc::Rpc" not in x[0]:
+                    print("   inl", x)
         fired = {}
         for p in props:
             rep = controls.run_rules_on(mods[p], F, p)
             v = [o for o in rep.violations() if o["key"] not in known]
             if v:
-                fired[p] = (sorted({o["rule"] for o in v}), (v[0]["detail"] or v[0]["what"])[:200])
+                fired[p] = (sorted({o["rule"] for o in v}), (v[0]["detail"] or v[0]["what"])[:200], v)
         if fired:
             print("%-50s FIRED" % diff[-50:])
-            for p, (rs, msg) in fired.items():
+            for p, (rs, msg, v) in fired.items():
                 print("      %s %s: %s" % (p, rs, msg))
+                if args.v:
+                    for o in v:
+                        print("          - %s | %s | %s" % (o["rule"], o["key"], (o["detail"] or o["what"])[:600]))
         else:
+            nsilent += 1
             print("%-50s silent" % diff[-50:])
     finally:
         shutil.rmtree(d, ignore_errors=True)
+print("silent %d / %d" % (nsilent, len(args.diffs)))
